@@ -395,7 +395,7 @@ func (m *Model) isDecodeTarget(al *ssa.Alloc) bool {
 
 // reachesWrite: f can (through static calls, not go) set the claim or Update/Delete the record.
 func (m *Model) reachesWrite(f *ssa.Function) (bool, string) {
-	for g := range m.staticReach(f, false) {
+	for _, g := range sortedFns(m.staticReach(f, false)) {
 		if containsFn(m.ClaimSet, g) {
 			return true, "reaches claim-set unit " + shortFn(g)
 		}
@@ -417,7 +417,7 @@ func (m *Model) reachesStoreOp(f *ssa.Function) bool {
 		return v
 	}
 	res := false
-	for g := range m.staticReach(f, false) {
+	for _, g := range sortedFns(m.staticReach(f, false)) {
 		eachInstr(g, func(in ssa.Instruction) {
 			if _, ok := m.isKVCall(valueOf(in), ""); ok {
 				res = true
